@@ -46,6 +46,61 @@ pub struct Tamper {
     pub rng: Rng,
 }
 
+/// What differs between `base` and `g` after discounting observationally equivalent secret
+/// trees and cached copies of stored prior epochs (the C04 notion of "unchanged").
+pub fn residual_diff(w: &mut World, to: usize, base: &VGroup, g: &VGroup) -> Vec<&'static str> {
+    let mut d = vh::state_diff(base, g);
+    if d.contains(&"epoch_secrets") && vh::epoch_secrets_equiv(base, g, 6).is_none() {
+        d.retain(|x| *x != "epoch_secrets");
+        w.out.cov.bump("epoch_secrets_equivalent_after_reject");
+    }
+    if d.contains(&"repo_inserts") {
+        let (ra, rb) = (vh::repo_view(base), vh::repo_view(g));
+        let cs = w.suite_of(w.parties[to].prov);
+        if ra.inserts.len() == rb.inserts.len()
+            && ra
+                .inserts
+                .iter()
+                .zip(rb.inserts.iter())
+                .all(|(a, b)| vh::epoch_rec_equiv(&cs, a, b, 6).is_none())
+        {
+            d.retain(|x| *x != "repo_inserts");
+            w.out.cov.bump("repo_inserts_equivalent_after_reject");
+        }
+    }
+    // cached (pending) copies of stored prior epochs: a copy equal to what is stored, or
+    // observationally equivalent to it, is not a change
+    {
+        let (ra, rb) = (vh::repo_view(base), vh::repo_view(g));
+        let cs = w.suite_of(w.parties[to].prov);
+        let gid = w.group_id.clone();
+        let dump = w.parties[to].stores.gs.dump(&gid, base.current_epoch());
+        let eff = |v: &vh::RepoView, id: u64| -> Option<vh::EpochRec> {
+            v.updates
+                .iter()
+                .find(|e| e.epoch_id() == id)
+                .cloned()
+                .or_else(|| dump.epochs.get(&id).and_then(|b| vh::EpochRec::decode(b).ok()))
+        };
+        let mut ids: Vec<u64> = ra.updates.iter().chain(rb.updates.iter()).map(|e| e.epoch_id()).collect();
+        ids.sort();
+        ids.dedup();
+        for id in ids {
+            match (eff(&ra, id), eff(&rb, id)) {
+                (Some(a), Some(b)) => {
+                    if let Some(x) = vh::epoch_rec_equiv(&cs, &a, &b, 6) {
+                        d.push("prior_epoch_record");
+                        w.log(json!({"prior_epoch_diff": id, "what": x}));
+                    }
+                }
+                (None, None) => {}
+                _ => d.push("prior_epoch_record"),
+            }
+        }
+    }
+    d
+}
+
 enum Outcome {
     DecodeReject,
     Rejected(String),
@@ -350,55 +405,7 @@ impl Tamper {
         mut g: VGroup,
         genuine: Option<&MlsMessage>,
     ) {
-        let mut d = vh::state_diff(base, &g);
-        if d.contains(&"epoch_secrets") && vh::epoch_secrets_equiv(base, &g, 6).is_none() {
-            d.retain(|x| *x != "epoch_secrets");
-            w.out.cov.bump("epoch_secrets_equivalent_after_reject");
-        }
-        if d.contains(&"repo_inserts") {
-            let (ra, rb) = (vh::repo_view(base), vh::repo_view(&g));
-            let cs = w.suite_of(w.parties[to].prov);
-            if ra.inserts.len() == rb.inserts.len()
-                && ra
-                    .inserts
-                    .iter()
-                    .zip(rb.inserts.iter())
-                    .all(|(a, b)| vh::epoch_rec_equiv(&cs, a, b, 6).is_none())
-            {
-                d.retain(|x| *x != "repo_inserts");
-                w.out.cov.bump("repo_inserts_equivalent_after_reject");
-            }
-        }
-        // cached (pending) copies of stored prior epochs: a copy equal to what is stored, or
-        // observationally equivalent to it, is not a change
-        {
-            let (ra, rb) = (vh::repo_view(base), vh::repo_view(&g));
-            let cs = w.suite_of(w.parties[to].prov);
-            let gid = w.group_id.clone();
-            let dump = w.parties[to].stores.gs.dump(&gid, base.current_epoch());
-            let eff = |v: &vh::RepoView, id: u64| -> Option<vh::EpochRec> {
-                v.updates
-                    .iter()
-                    .find(|e| e.epoch_id() == id)
-                    .cloned()
-                    .or_else(|| dump.epochs.get(&id).and_then(|b| vh::EpochRec::decode(b).ok()))
-            };
-            let mut ids: Vec<u64> = ra.updates.iter().chain(rb.updates.iter()).map(|e| e.epoch_id()).collect();
-            ids.sort();
-            ids.dedup();
-            for id in ids {
-                match (eff(&ra, id), eff(&rb, id)) {
-                    (Some(a), Some(b)) => {
-                        if let Some(x) = vh::epoch_rec_equiv(&cs, &a, &b, 6) {
-                            d.push("prior_epoch_record");
-                            w.log(json!({"prior_epoch_diff": id, "what": x}));
-                        }
-                    }
-                    (None, None) => {}
-                    _ => d.push("prior_epoch_record"),
-                }
-            }
-        }
+        let d = residual_diff(w, to, base, &g);
         w.out.cov.bump("unchanged_checked");
         if !d.is_empty() {
             let fine = if d.contains(&"epoch_secrets") {
